@@ -32,8 +32,6 @@ def check(model: Model, run: Run) -> None:
                        "it leaves alone is printable ASCII; (3) format agreement - the callback writes backslash + two hex digits and that language is accepted by the "
                        "un-escaper's patterns. With (1)-(3) the serialiser is a homomorphism h with g(h(v)) = v for the un-escaper g. NOT decided: that the parser "
                        "rebuilds the same tree (its offset arithmetic: C14)")
-    from .c15_lang import valid_names_are_accepted
-    valid_names_are_accepted(model, run, "J24-valid-names-are-accepted")
     from ..commonrules import values_compare_by_their_fields
     values_compare_by_their_fields(model, run, "J23-filters-compare-by-their-fields", [f"{FILTER}.LDAPFilter"] + list(model.subclasses(f"{FILTER}.LDAPFilter", strict=True)),
                                    "`from_string(str(f)) == f` is then decided by something other than the fields (and a memo keyed on the filter confuses different filters)")
@@ -307,6 +305,9 @@ def check(model: Model, run: Run) -> None:
     no_size_based_rejection(model, run)
     from .c19 import parse_results_fresh
     parse_results_fresh(model, run, "sansldap._filter", "J5-parse-results-are-fresh", "from_string(str(f)) == f")
+    # last, because it needs the attribute pattern to be identified: every RFC 4512 name is accepted by the parser
+    from .c15_lang import valid_names_are_accepted
+    valid_names_are_accepted(model, run, "J24-valid-names-are-accepted")
 
 
 def strict_hex_decoding(model: Model, run: Run, unesc_site, rule: str) -> None:
